@@ -93,6 +93,22 @@ def run(chk: Check):
     n = 120 if chk.tier == "quick" else 2000
     for i in range(n):
         scn = ch.gen_scn(rng, sched="rr", restore=rng.random() < 0.5, set_ops=True, max_batches=rng.randint(2, 9))
+        if i % 10 == 3:
+            # the line-up is replaced by the SAME classes in another order (or a subset, then all of them again), then checkpoint, restore, continue
+            k = rng.randint(2, 4)
+            classes = rng.sample(range(len(ch.STUB_NAMES)), k)
+            mk = lambda order: [(c, bs, script, cs) for c, (_, bs, script, cs) in zip(order, ch.gen_stub_lineup(rng, len(order), scn.dims, scn.bounds))]
+            scn.lineup = mk(classes)
+            perm = classes[:]
+            while perm == classes:
+                rng.shuffle(perm)
+            ops = [("C", rng.randint(1, 2))]
+            if rng.random() < 0.5:
+                ops += [(rng.choice(["SS", "SCH"]), mk(perm[:1]), "rr")[:3 if ops and False else 3], ("C", 1)]
+            ops += [(rng.choice(["SS", "SCH"]), mk(perm), "rr"), ("C", rng.randint(1, 2)), ("K",), ("R",), ("C", rng.randint(1, 2))]
+            scn.ops = [o if o[0] != "SS" else o[:2] for o in ops]
+            scn.loss_table = {}
+            chk.count("reorder_same_classes_then_restore")
         scn.ops = list(scn.ops) + [("K",)]
         scn.keep_folder = True
         with warnings.catch_warnings():
